@@ -94,6 +94,14 @@ Definition dump (st : srv) : list (list Z) :=
                                  end) [1; 2; 12; 16; 20; 21; 13]
   ++ [[701; Z.of_nat (length (s_registered st))] ++ s_registered st].
 
+(* the very same token (same header text) presented again after its expiry instant has passed *)
+Definition expire (h : header) : header :=
+  match h with
+  | HToken t => HToken {| t_alg := t_alg t; t_key := t_key t; t_sig := t_sig t; t_claims := t_claims t;
+                         t_aud := t_aud t; t_exp := -1; t_scope := t_scope t; t_scheme := t_scheme t |}
+  | x => x
+  end.
+
 Fixpoint run_srv (auth : bool) (st : srv) (ls : list (list Z)) : list (list Z) :=
   match ls with
   | [] => []
@@ -103,6 +111,14 @@ Fixpoint run_srv (auth : bool) (st : srv) (ls : list (list Z)) : list (list Z) :
     | None => [-1] :: run_srv auth st r
     end
   | [2] :: r => dump st ++ run_srv auth st r
+  (* 4: one token, used before and again after its expiry (the harness waits in between) *)
+  | (4 :: rpc :: 0 :: k :: hd) :: r =>
+    match dec_header hd with
+    | Some h => let '(st1, c1) := call auth st rpc k h in
+                let '(st2, c2) := call auth st1 rpc k (expire h) in
+                [c1; 0] :: [c2; 0] :: run_srv auth st2 r
+    | None => [-1] :: run_srv auth st r
+    end
   | _ :: r => [-1] :: run_srv auth st r
   end.
 
